@@ -23,6 +23,7 @@ import (
 	"os"
 	"path"
 	"path/filepath"
+	"strconv"
 	"strings"
 	"sync"
 	"time"
@@ -241,9 +242,13 @@ func CompareVersion(v1, v2 string) int {
 		return 1
 	}
 
-	if parts1[1] < parts2[1] {
+	// the second part is the nanosecond within the second, printed without padding:
+	// compare it as a number ("99999" < "100000"), not as a string
+	n1, _ := strconv.ParseUint(parts1[1], 10, 64)
+	n2, _ := strconv.ParseUint(parts2[1], 10, 64)
+	if n1 < n2 {
 		return -1
-	} else if parts1[1] > parts2[1] {
+	} else if n1 > n2 {
 		return 1
 	}
 
